@@ -362,6 +362,10 @@ func (w *World) Mutate(chain string, ev mhub2types.ExternalEvent, mut string) mh
 				return nil
 			}
 			c.Members[0].Power++
+		case "member_case": // the same members, addresses spelled in lower case (not a different event: same 20 bytes)
+			for _, m := range c.Members {
+				m.ExternalAddress = strings.ToLower(m.ExternalAddress)
+			}
 		case "member_power_hi": // the first member has the greatest power: adding 2^32 keeps the sort position
 			if len(c.Members) == 0 {
 				return nil
